@@ -29,7 +29,7 @@ SLOW_FNS = {"#time", "#timel", "#dateformat", "#formatdate"}  # dateparser: seco
 EXPR = ["0", "1", "2", "3", "0.5", "10", "1000", "99999999999999999999", ".", "e", "pi", "+", "-", "*", "/", "^", "(", ")",
         "div", "mod", "round", "=", "!=", "<>", "<", ">", "<=", ">=", "and", "or", "not", "ceil", "trunc", "floor", "abs",
         "sqrt", "exp", "ln", "sin", "cos", "tan", "acos", "asin", "atan", "x", "#"]
-EXPR_Q = ["0", "1", "2", "0.5", "1000", "99999999999999999999", "e", "+", "-", "*", "/", "^", "(", ")", "mod", "round",
+EXPR_Q = ["0", "1", "2", "0.5", "1000", "99999999999999999999", "-99999999999999999999", "e", "+", "-", "*", "/", "^", "(", ")", "mod", "round",
           "=", "<", "and", "or", "not", "ceil", "trunc", "sqrt", "exp", "ln", "acos", "x"]
 ERR = 'class="error"'
 GRAPH_LIMIT = 3.0
